@@ -304,6 +304,10 @@ type vfC09Case struct {
 func vfGenC09(t *rapid.T) vfC09Case {
 	dyn := rapid.IntRange(0, 2).Draw(t, "dynamic") == 0
 	c := vfC09Case{Cfg: vfGenDetCfg(t, dyn, false), Cut: -1}
+	if rapid.IntRange(0, 9).Draw(t, "count0") == 0 {
+		// count-thresh 0 ("any comparable frame is motion"): suppression after an FFC is all that keeps frames quiet
+		c.Cfg.Count = 0
+	}
 	c.Base = vfGenBase(t, c.Cfg)
 	n := rapid.IntRange(2, 36).Draw(t, "n")
 	c.Frames = vfGenTimeline(t, n, true, true)
@@ -340,7 +344,11 @@ func vfGenC09(t *rapid.T) vfC09Case {
 func vfRunC09(c vfC09Case) *kit.Result {
 	r := &kit.Result{}
 	n := len(c.Frames)
-	if msg := c.Cfg.valid(); msg != "" || n > 300 || c.Cut >= n {
+	vc := c.Cfg
+	if vc.Count == 0 {
+		vc.Count = 1 // C09 quantifies over all motion configurations, count-thresh 0 included
+	}
+	if msg := vc.valid(); msg != "" || n > 300 || c.Cut >= n {
 		r.Failf("malformed case: %s", msg)
 		return r
 	}
@@ -446,7 +454,7 @@ func vfRunC09(c vfC09Case) *kit.Result {
 
 func TestVF_C09(t *testing.T) {
 	kit.Drive(t, "C09", "TestVF_C09",
-		"generated: telemetry timelines with time-on steps from 100 ms to 12 s (FFC periods of 0..N frames), FFC events at arbitrary frames incl. the first, back-to-back, and last-FFC-time ahead of time-on; resets; fixed and dynamic threshold; all detector configurations of C07. Oracle (a): Detect() is false on every frame within 10 s after an FFC and on the frame directly following such a run. Oracle (b, metamorphic pair): two histories sharing the timeline (length, telemetry, resets) and differing only in the pixels of frames before an FFC period (fixed and dynamic; dynamic without a reset before the period's end) or before a reset (fixed) give identical Detect() results - and dynamic thresholds - from the first frame after the period / the reset. Non-trivial: the frame after a period would be motion without suppression (reference detector of C07), or the differing prefix would flip a later result if nothing were forgotten.",
+		"generated: telemetry timelines with time-on steps from 100 ms to 12 s (FFC periods of 0..N frames), FFC events at arbitrary frames incl. the first, back-to-back, and last-FFC-time ahead of time-on; resets; fixed and dynamic threshold; all detector configurations of C07, and count-thresh 0 in one case in 10. Oracle (a): Detect() is false on every frame within 10 s after an FFC and on the frame directly following such a run. Oracle (b, metamorphic pair): two histories sharing the timeline (length, telemetry, resets) and differing only in the pixels of frames before an FFC period (fixed and dynamic; dynamic without a reset before the period's end) or before a reset (fixed) give identical Detect() results - and dynamic thresholds - from the first frame after the period / the reset. Non-trivial: the frame after a period would be motion without suppression (reference detector of C07), or the differing prefix would flip a later result if nothing were forgotten.",
 		vfGenC09, vfRunC09)
 }
 
